@@ -58,6 +58,8 @@ def main(argv):
     cfg = S["cfg"]
     dt = getattr(torch, cfg["param_dtype"])
     init = G.make_params(torch, S["shapes"], dt, tgen(*seed, "init"), scale=S["grad_scale"])
+    if S.get("pdts"):
+        init = [p.detach().to(getattr(torch, x)) for p, x in zip(init, S["pdts"])]
     params = [torch.nn.Parameter(p.detach().clone()) for p in init]
     opt = G.build_optimizer(ds, torch, cfg, params, distributed_config=ddp_config(ds, S["comm"], S["G"], S["communicate_params"]))
     hist = []
@@ -68,7 +70,7 @@ def main(argv):
         dist.all_reduce(torch.zeros(1))
         emit(ev="ret", op="grad_allreduce", iter=t)
         for j, (p, s) in enumerate(zip(params, S["shapes"])):
-            p.grad = G.grad_for(torch, tgen(*seed, "g", t, j), s, dt, S["grad_kind"], S["grad_scale"] * (1 + j)) if S["presence"][t][j] else None
+            p.grad = G.grad_for(torch, tgen(*seed, "g", t, j), s, p.dtype, S["grad_kind"], S["grad_scale"] * (1 + j)) if S["presence"][t][j] else None
         opt.step()
         hist.append([p.detach().clone() for p in params])
     torch.save(hist, os.path.join(d, f"params_{rank}.pt"))
